@@ -1,0 +1,55 @@
+//go:build verif
+
+package yqlib
+
+import (
+	"fmt"
+	"os"
+	"strconv"
+	"strings"
+	"syscall"
+)
+
+// Verification hook (build tag `verif` only): named fault / crash points at
+// the file-system steps of the in-place write protocol.
+//
+//	YQ_VERIF_FAULT=<point>:<fail|kill>[:<nth>]
+//
+// makes the nth (default 1st) arrival at <point> return an error, or kill the
+// process with SIGKILL.  YQ_VERIF_TRACE=<file> appends every point reached.
+var verifCounts = map[string]int{}
+
+func verifPoint(name string) error {
+	if trace := os.Getenv("YQ_VERIF_TRACE"); trace != "" {
+		if f, err := os.OpenFile(trace, os.O_APPEND|os.O_CREATE|os.O_WRONLY, 0o600); err == nil {
+			_, _ = f.WriteString(name + "\n")
+			_ = f.Close()
+		}
+	}
+	spec := os.Getenv("YQ_VERIF_FAULT")
+	if spec == "" {
+		return nil
+	}
+	parts := strings.Split(spec, ":")
+	if len(parts) < 2 || parts[0] != name {
+		return nil
+	}
+	nth := 1
+	if len(parts) > 2 {
+		if n, err := strconv.Atoi(parts[2]); err == nil {
+			nth = n
+		}
+	}
+	verifCounts[name]++
+	if verifCounts[name] != nth {
+		return nil
+	}
+	switch parts[1] {
+	case "kill":
+		_ = syscall.Kill(os.Getpid(), syscall.SIGKILL)
+		select {}
+	case "fail":
+		return fmt.Errorf("verif: injected fault at %s", name)
+	}
+	return nil
+}
